@@ -326,6 +326,8 @@ impl Node {
         old_fts_str: &Option<String>,
         node_fts_str: &Option<String>,
     ) -> std::result::Result<(), rusqlite::Error> {
+        #[cfg(feature = "verif")]
+        crate::verif::fault("node_write")?;
         static UPDATE_FTS_QUERY: &str = "INSERT INTO _node_fts (rowid, text) VALUES (?, ?)";
         if let Some(id) = self._local_id {
             if index {
@@ -962,6 +964,8 @@ impl NodeDeletionEntry {
 }
 impl Writeable for NodeDeletionEntry {
     fn write(&mut self, conn: &Connection) -> std::result::Result<(), rusqlite::Error> {
+        #[cfg(feature = "verif")]
+        crate::verif::fault("node_deletion_write")?;
         let mut insert_stmt = conn.prepare_cached(
             "INSERT OR REPLACE INTO _node_deletion_log (
                 room_id,
